@@ -1,7 +1,8 @@
-\* C39 leg A thorough: bytes {1,2}, data length 1..2; 7^5 patterns x 5 types
+\* C39 leg A thorough: Base 2, lengths 1, 2, 4, 5 (one, two and three digits), 5^5 patterns x 5 types
 SPECIFICATION Spec
-CONSTANTS Bytes = {1, 2}
-          MaxLen = 2
+CONSTANTS Base = 2
+          Bytes = {1}
+          Lens = {1, 2, 4, 5}
 INVARIANT C39_GetMatchesExpected
 PROPERTY C39_Terminates
 CHECK_DEADLOCK FALSE
